@@ -208,8 +208,30 @@ def run(ctx):
             ops = ["A t1 %d %d" % (i, 40 + 3 * (i % 2)) for i in range(n)] + ["R t1 1"] * (2 * pe + 1)
             workloads.append(("mode=%s backend=%s sched=nofsync" % (mode, rng.choice(["fd", "mmap"])), ops,
                               dict(topics=["t1"], mode=mode, only_read_next=True, regular=True), None))
+    if prop in ("C07", "C09"):
+        # never-written blocks ("holes") in front of a consumer's block: an append under an over-long topic name is
+        # rejected only after its writer has allocated a block.  Recovery must still give the blocks behind the hole
+        # the ids the allocator gave them, or a tail position persisted before the crash names another block after it
+        # (seeded change c07c-1 — the recovery scan no longer counting all-zero units — was missed: no crash workload
+        # had a rejected append).  Position persisted in the block behind the hole, that block filled and rotated,
+        # crash points incl. right before / after the last event.
+        for mode in (["strict"] if prop == "C07" else ["strict", "alo:1", "alo:2"]):
+            for nholes in (1, 2):
+                big = (B - 2 * H) // 2 - 40
+                ops = ["A L%d %d 5" % (300 + i, 900 + i) for i in range(nholes)]
+                ops += ["A t1 0 %d" % big, "A t1 1 60"]
+                if prop == "C09":
+                    ops += ["R t1 1"]
+                ops += ["A t1 2 %d" % big, "A t1 3 %d" % big, "A t1 4 70", "A t2 5 30"]
+                if prop == "C09":
+                    ops += ["R t1 1"]
+                workloads.append(("mode=%s backend=%s sched=nofsync" % (mode, rng.choice(["fd", "mmap"])), ops,
+                                  dict(topics=["t1", "t2"], mode=mode, only_read_next=True, regular=True), None))
     for _ in range(nwork):
         hdr, ops, info = gen_workload(rng, prop, B)
+        if prop in ("C07", "C09") and not info.get("regular") and rng.random() < 0.3:
+            for _ in range(rng.choice([1, 1, 2])):
+                ops.insert(rng.randint(0, len(ops)), "A L%d %d 5" % (rng.choice([217, 230, 300]), 9000 + rng.randint(0, 99)))
         workloads.append((hdr, ops, info, None))
     # 1) dry runs: count the I/O events of each workload
     if prop == "C04":
